@@ -8,7 +8,7 @@ CXXSTD := -std=c++17
 WARN := -w
 GXX ?= g++
 CLANGXX ?= clang++
-COMMON := $(CXXSTD) $(WARN) -fno-exceptions -I$(INC) -Iharness $(GUARD)
+COMMON := $(CXXSTD) $(WARN) -fno-exceptions -I$(INC) -Iharness
 SAN := -fsanitize=address,undefined -fno-sanitize=alignment,function,vptr -fno-sanitize-recover=all -fno-omit-frame-pointer -g -O1
 
 build/headers.sha:
@@ -35,6 +35,10 @@ build/%.asan: harness/%.cpp $(HDRS)
 	@mkdir -p build
 	$(CLANGXX) $(COMMON) $(SAN) -march=native -DQENTEM_SSE2=1 -DVERIF_ASAN=1 $< -o $@
 
+build/%.xasan: harness/%.cpp $(HDRS)
+	@mkdir -p build
+	$(CLANGXX) $(COMMON) $(GUARD) $(SAN) -march=native -DQENTEM_SSE2=1 -DVERIF_ASAN=1 $< -o $@
+
 build/%.asan_scalar: harness/%.cpp $(HDRS)
 	@mkdir -p build
 	$(CLANGXX) $(COMMON) $(SAN) -march=native -DVERIF_ASAN=1 $< -o $@
@@ -49,7 +53,7 @@ build/%.tsan: harness/%.cpp $(HDRS)
 
 build/%.f16: harness/%.cpp $(HDRS)
 	@mkdir -p build
-	$(GXX) -std=c++23 $(WARN) -fno-exceptions -I$(INC) -Iharness $(GUARD) -O2 -march=native -DQENTEM_SSE2=1 -DQENTEM_ENABLE_FLOAT_16=1 $< -o $@
+	$(GXX) -std=c++23 $(WARN) -fno-exceptions -I$(INC) -Iharness -O2 -march=native -DQENTEM_SSE2=1 -DQENTEM_ENABLE_FLOAT_16=1 $< -o $@
 
 clean:
 	rm -rf build out
